@@ -76,7 +76,7 @@ type ecdsaCase struct {
 }
 
 var ecdsaPerturbs = []string{"none", "none", "s=0", "s+1", "s=n-s", "R=-R", "R=-R,s=n-s", "R=identity", "R=other", "R=2R",
-	"msg-flip", "msg-truncate", "msg-extend", "key=other", "key=-X", "s=1", "r-from-other-R-same-x"}
+	"msg-flip", "msg-truncate", "msg-extend", "key=other", "key=-X", "s=1", "r-from-other-R-same-x", "s=0,rogue-key", "s=0,rogue-key"}
 
 func ecdsaRun(c ecdsaCase) *pbt.Fail {
 	d, k := conv.BigHex(c.D), conv.BigHex(c.K)
@@ -122,6 +122,20 @@ func ecdsaRun(c ecdsaCase) *pbt.Fail {
 		X = ref.BaseMul(conv.BigHex(c.OtherD))
 	case "key=-X":
 		X = X.Neg()
+	case "s=0,rogue-key":
+		// the public key for which m*G + r*X is the point at infinity: every inversion-free rewriting of the verification
+		// equation (s*R == m*G + r*X) holds for s = 0 under this key, whatever R is
+		s = new(big.Int)
+		rr := new(big.Int).Mod(R.X, ref.N)
+		m := ref.HashToInt(vmsg)
+		m.Mod(m, ref.N)
+		if rr.Sign() == 0 || m.Sign() == 0 {
+			break
+		}
+		x := new(big.Int).ModInverse(rr, ref.N)
+		x.Mul(x, m).Mod(x, ref.N)
+		x.Sub(ref.N, x)
+		X = ref.BaseMul(x)
 	}
 	sig := ecdsa.Signature{R: conv.Point(R), S: conv.Scalar(s)}
 	got := sig.Verify(conv.Point(X), vmsg)
